@@ -1,6 +1,8 @@
 import Bch.Drive.C07
 import Bch.Drive.C01
 import Bch.Drive.C03
+import Bch.Drive.C06
+import Bch.Drive.C05
 open Bch.Drive
 
 def dispatch (id : String) : Option Runner :=
@@ -9,6 +11,9 @@ def dispatch (id : String) : Option Runner :=
   | "C01" => some C01.run
   | "C02" => some C01.run
   | "C03" => some C03.run
+  | "C06" => some C06.run
+  | "C04" => some C04.run
+  | "C05" => some C05.run
   | _ => none
 
 def handle (line : String) : String :=
